@@ -149,6 +149,46 @@ def r09_2(ctx):
                         bad = "the handler is not switched between the two queries (the confirming query must use the new format)"
             ctx.require(not bad and p.terminal == "return", f"version:ncp={'known' if ncp in KNOWN else 'newer'}:{'same' if ncp == 4 else 'other'}",
                         f"NCP version {ncp}: {bad}", func=f, trace=p.trace(12))
+    # history on ONE EZSP object: negotiate, reset, negotiate again (the NCP forgets the negotiated version with every reset, so the
+    # whole exchange must be repeated: legacy first query for version 4, handler switched, confirming query for the reported version)
+    rf = repo.func(f"{EZ}:EZSP.reset")
+    for ncp in (8, KNOWN[-1], KNOWN[-1] + 1):
+        holder = {"running": True}
+        pxh = PX(repo, models=event_models(holder) + [("self._command", lambda px_, t, a, k, fr: (ncp, Sym("stack_type"), Sym("stack_version"))),
+                                                      ("self._gw.reset", Outcomes(OK(True)))], inline=same_class(stop=("handle_callback",)))
+        pxh.inline.root = f
+        marks = {}
+
+        def hentry():
+            holder["running"] = True
+            me = self_obj(ez_cls(ctx), {"_ezsp_version": 4, "_protocol": Obj(repo.cls("bellows.ezsp.v4", "EZSPv4"), {}, tag="v4"), "_gw": Obj(TypeRef("Gateway"), {}, tag="gw")})
+            pxh.top_frame = None
+            pxh.call_function(f, me, [], {}, None)
+            pxh.emit("mark", "reset")
+            pxh.call_function(rf, me, [], {}, None)
+            pxh.emit("mark", "second negotiation")
+            marks["proto_before"] = proto_version(ctx, me.fields.get("_protocol"))
+            pxh.call_function(f, me, [], {}, None)
+            return me
+
+        for p in pxh._run(hentry):
+            ctx.paths += 1
+            bad = None
+            if p.terminal != "return":
+                bad = f"raises {p.value!r}"
+            else:
+                i = next(k for k, e in enumerate(p.events) if e.kind == "mark" and e.what == "second negotiation")
+                q = [e for e in p.events[i:] if e.kind == "await" and e.what == "self._command"]
+                me = p.value
+                if marks.get("proto_before") != 4:
+                    bad = f"after the reset the handler is v{marks.get('proto_before')}, not the legacy one"
+                elif len(q) != 2:
+                    bad = f"the second negotiation issues {len(q)} version queries; after a reset the NCP must be asked and then told the version again (2)"
+                elif q[0].kwargs.get("desiredProtocolVersion") != 4 or q[1].kwargs.get("desiredProtocolVersion") != ncp:
+                    bad = f"the second negotiation asks for {[e.kwargs.get('desiredProtocolVersion') for e in q]!r}, must be [4, {ncp}]"
+                elif me.fields.get("_ezsp_version") != ncp or proto_version(ctx, me.fields.get("_protocol")) != (ncp if ncp in KNOWN else max(KNOWN)):
+                    bad = f"ends with version {me.fields.get('_ezsp_version')!r} / handler v{proto_version(ctx, me.fields.get('_protocol'))}"
+            ctx.require(not bad, "version:renegotiation-after-reset", f"NCP version {ncp}, negotiate / reset / negotiate on one object: {bad}", func=f, trace=p.trace(30))
 
 
 @rule("R09.5", ["C09"], "T-ORD", floor=4)
